@@ -69,10 +69,11 @@ impl<T> ExactSizeIterator for Drain<'_, T> {}
 
 impl<T> DoubleEndedIterator for Drain<'_, T> {
   fn next_back(&mut self) -> Option<Self::Item> {
-    let pos = unsafe { self.drain_end_.as_ptr().sub(1) };
-    if pos < self.drain_pos_.as_ptr() {
+    if self.drain_pos_ >= self.drain_end_ {
       return None;
     }
+
+    let pos = unsafe { self.drain_end_.as_ptr().sub(1) };
 
     let tmp = unsafe { core::ptr::read(pos) };
     self.drain_end_ = unsafe { core::ptr::NonNull::new_unchecked(pos) };
